@@ -52,6 +52,17 @@ import (
 // released and it ends by itself. After Run returned — however the drain ended — every accepted socket must be
 // closed (clients see EOF/RST within 3 s), the listener's gauge of active connections must be 0, and no exchange
 // may still be served (an origin answer released after the return must not reach the client).
+//
+// Family "runend", the SIGNAL MATRIX (genRunSig; rig a, and genServerSig on rig s): shutdownContext subscribes the
+// context of the drain to ShutdownSignals — to exactly that set, and to nothing when it is empty. The configured
+// set {none, {SIGUSR1}, {SIGUSR1, SIGUSR2}} is crossed with what is delivered to the hosting process once the run
+// context is cancelled: nothing, a signal of the set, harmless signals outside it (SIGWINCH, SIGURG, SIGCHLD,
+// SIGUSR2 when only SIGUSR1 is configured, SIGUSR1 itself when nothing is), several of them, unconfigured ones
+// followed by a configured one — each repeated every 25 ms. The shutdown timeout is long (20 s) and the work
+// outlasts the deliveries (request at the origin for 0.6-1.2 s, tunnel with echo traffic for 0.5-0.9 s): a signal
+// outside the set must end nothing (every exchange completes in full, Run returns only after the drain), one
+// of the set ends the drain (Close, every accepted socket closed). The history carries the configured set (SG:…)
+// and every delivery (G:<number>); Model/C11.lean `sig n k` cancels a context only if it is subscribed to n.
 type Call struct {
 	Op       string `json:"op"`                  // "shutdown" | "close"
 	CtxMs    int    `json:"ctx_ms,omitempty"`    // shutdown: deadline of its context (0 = none)
@@ -330,6 +341,112 @@ func genRunEnd(r *core.Rand, i int) *Case {
 	return c
 }
 
+// sigMatrix: configured set x what is delivered (u: signals outside the set, c: one of the set) -> what ends the drain.
+var sigMatrix = []struct {
+	cfg     []int
+	unconf  []int // delivered from 60-200 ms after the cancellation on
+	conf    []int // delivered later (after the unconfigured ones, if any)
+	timeout bool  // the drain is ended by a shutdown timeout shorter than the work instead
+}{
+	{cfg: nil, unconf: []int{28}},
+	{cfg: []int{10}, unconf: []int{12}},
+	{cfg: []int{10, 12}, conf: []int{12}},
+	{cfg: nil, unconf: []int{23, 17, 10}},
+	{cfg: []int{10}, unconf: []int{28, 23}, conf: []int{10}},
+	{cfg: []int{10, 12}, unconf: []int{28, 17}},
+	{cfg: nil},
+	{cfg: []int{10}, conf: []int{10}},
+	{cfg: []int{10, 12}, unconf: []int{23}, conf: []int{10}},
+	{cfg: nil, unconf: []int{12, 10}, timeout: true},
+	{cfg: []int{10}},
+	{cfg: []int{10, 12}, conf: []int{10, 12}},
+	{cfg: []int{10}, unconf: []int{17, 12, 28}},
+	{cfg: nil, unconf: []int{10, 28}},
+}
+
+// genRunSig: the i-th case of the signal matrix for rig a.
+func genRunSig(r *core.Rand, i int) *Case {
+	m := sigMatrix[i%len(sigMatrix)]
+	c := &Case{Kind: "a", Family: "runend", Op: "shutdown", ListenerFirst: true, Trigger: "ready", SigCase: true,
+		Signals: m.cfg, TLS: r.Chance(15), DelayUs: core.Pick(r, []int{0, 0, 1000, 20000}), TimeoutMs: 20000}
+	at := r.Range(60, 200)
+	for _, s := range m.unconf {
+		c.Deliver = append(c.Deliver, SigStep{Sig: s, AtMs: at})
+		at += r.Range(0, 60)
+	}
+	switch {
+	case len(m.conf) > 0:
+		c.End = "signal"
+		c.SignalMs = r.Range(80, 400)
+		if len(m.unconf) > 0 {
+			c.SignalMs = at + r.Range(300, 500) // the unconfigured ones have been delivered a dozen times by then
+		}
+		for j, s := range m.conf {
+			c.Deliver = append(c.Deliver, SigStep{Sig: s, AtMs: c.SignalMs + 30*j})
+		}
+	case m.timeout:
+		c.End = "timeout"
+		c.TimeoutMs = r.Range(700, 1000)
+	default:
+		c.End = "drain"
+	}
+	for k := 0; k < 2; k++ {
+		c.Conns = append(c.Conns, ConnScript{Phase: "idle", Sentinel: true, PreExchange: true})
+	}
+	work := [][]string{{"origin"}, {"origin", "tunnel"}, {"tunnel", "origin", "idle"}, {"origin", "origin"}}[(i+i/len(sigMatrix))%4]
+	for _, w := range work {
+		s := ConnScript{Phase: w}
+		if c.End == "drain" {
+			// the work ends by itself, well after the deliveries began
+			switch w {
+			case "origin":
+				s.DelayMs = r.Range(600, 1200)
+				s.PreExchange = r.Chance(30)
+				s.NoBody = r.Chance(20)
+				s.After = core.Pick(r, []string{"close", "send"})
+			case "tunnel":
+				s.HoldMs = r.Range(500, 900)
+				s.After = core.Pick(r, []string{"close", "oend"})
+			case "idle":
+				s.PreExchange = r.Chance(60)
+				s.After = "close"
+			}
+		} else {
+			// the work never ends by itself: only the forced close does it
+			switch w {
+			case "origin":
+				s.Park = true
+				s.DelayMs = 8000
+				s.PreExchange = r.Chance(30)
+			case "tunnel":
+				s.After = "wait"
+				s.HoldMs = 100
+			case "idle":
+				s.PreExchange = r.Chance(60)
+				s.After = "wait"
+			}
+		}
+		c.Conns = append(c.Conns, s)
+	}
+	c.Conns = append(c.Conns, ConnScript{Phase: "idle", After: "send", PreExchange: r.Chance(50)})
+	c.Conns = append(c.Conns, ConnScript{Phase: "late"})
+	return c
+}
+
+// sigLabel: the cell of the signal matrix a case is in.
+func (c *Case) sigLabel() string {
+	set, _ := c.sigCfg()
+	nu, nc := 0, 0
+	for _, st := range c.deliveries() {
+		if hasInt(set, st.Sig) {
+			nc++
+		} else {
+			nu++
+		}
+	}
+	return fmt.Sprintf("configured=%d/delivered-unconfigured=%d,configured=%d", len(set), nu, nc)
+}
+
 // runCalls issues the calls of a control-call history against martian.Proxy (rig b) and records what every one
 // of them returned and what the proxy's side of the sockets looked like at that moment.
 func (cr *caseRun) runCalls(out *outcome) {
@@ -514,12 +631,19 @@ func evaluateCalls(ctx *core.Ctx, c *Case, out *outcome, doc caseDoc, h string) 
 
 var sigOnce sync.Once
 
-// holdSignals makes SIGUSR1 / SIGUSR2 harmless for this process for good (their default action terminates it):
-// the proxy registers for its ShutdownSignals only while it drains.
+// deliverable: the signals a case may send to the process that hosts the proxy. SIGUSR1 / SIGUSR2 are caught for
+// good by holdSignals; the default action of the others is to be ignored.
+var deliverable = map[int]string{
+	int(syscall.SIGUSR1): "SIGUSR1", int(syscall.SIGUSR2): "SIGUSR2", int(syscall.SIGCHLD): "SIGCHLD",
+	int(syscall.SIGURG): "SIGURG", int(syscall.SIGWINCH): "SIGWINCH",
+}
+
+// holdSignals makes every deliverable signal harmless for this process for good (the default action of SIGUSR1 /
+// SIGUSR2 terminates it): the proxy registers for its ShutdownSignals only while it drains.
 func holdSignals() {
 	sigOnce.Do(func() {
-		ch := make(chan os.Signal, 64)
-		signal.Notify(ch, syscall.SIGUSR1, syscall.SIGUSR2)
+		ch := make(chan os.Signal, 256)
+		signal.Notify(ch, syscall.SIGUSR1, syscall.SIGUSR2, syscall.SIGCHLD, syscall.SIGURG, syscall.SIGWINCH)
 		go func() {
 			for range ch {
 			}
@@ -527,19 +651,118 @@ func holdSignals() {
 	})
 }
 
-// secondSignal delivers the proxy's shutdown signal to this process SignalMs after the cancellation and then every
-// 25 ms until Run has returned (a signal that arrives before the proxy has registered for it is lost).
-func (cr *caseRun) secondSignal(runDone chan struct{}) {
-	if waitOr(runDone, time.Duration(cr.c.SignalMs)*time.Millisecond) {
-		return
+// SigStep is one signal delivered to the process that hosts the proxy while it drains.
+type SigStep struct {
+	Sig  int `json:"sig"`   // signal number (10 SIGUSR1, 12 SIGUSR2, 17 SIGCHLD, 23 SIGURG, 28 SIGWINCH)
+	AtMs int `json:"at_ms"` // first sent this long after the cancellation of the run context, then every 25 ms (a signal that arrives before the proxy has registered for it is lost): one of the configured set until Run has returned, any other for 1 s
+}
+
+// sigCfg: the ShutdownSignals a case configures (numbers); ok = false: the defaults of the configuration stay.
+func (c *Case) sigCfg() (set []int, ok bool) {
+	switch {
+	case c.SigCase:
+		return c.Signals, true
+	case c.Kind == "a" && c.Family == "runend":
+		return []int{int(syscall.SIGUSR1)}, true
 	}
-	cr.log.Add("Z", 0)
-	for i := 0; i < 800; i++ {
-		syscall.Kill(os.Getpid(), syscall.SIGUSR1)
-		if waitOr(runDone, 25*time.Millisecond) {
+	return nil, false
+}
+
+// deliveries: the signals a case sends during the drain.
+func (c *Case) deliveries() []SigStep {
+	if len(c.Deliver) > 0 {
+		return c.Deliver
+	}
+	if c.End == "signal" && !c.SigCase {
+		return []SigStep{{Sig: int(syscall.SIGUSR1), AtMs: c.SignalMs}}
+	}
+	return nil
+}
+
+func osSignals(set []int) []os.Signal {
+	out := []os.Signal{}
+	for _, n := range set {
+		out = append(out, syscall.Signal(n))
+	}
+	return out
+}
+
+func signalNumbers(set []os.Signal) []int {
+	var out []int
+	for _, s := range set {
+		if n, ok := s.(syscall.Signal); ok {
+			out = append(out, int(n))
+		}
+	}
+	return out
+}
+
+func hasInt(set []int, n int) bool {
+	for _, x := range set {
+		if x == n {
+			return true
+		}
+	}
+	return false
+}
+
+// deliverSignals sends the steps to this process, counted from now: first(sig) is called just BEFORE a signal is
+// sent for the first time. It returns when stop is closed or nothing is left to send.
+func deliverSignals(steps []SigStep, cfg []int, stop chan struct{}, first func(sig int)) {
+	start := time.Now()
+	sent := make([]bool, len(steps))
+	for {
+		el := time.Since(start)
+		active := false
+		next := 25 * time.Millisecond
+		for i, st := range steps {
+			if _, ok := deliverable[st.Sig]; !ok {
+				continue // never send anything whose default action could end the process
+			}
+			at := time.Duration(st.AtMs) * time.Millisecond
+			if el < at {
+				active = true
+				if at-el < next {
+					next = at - el
+				}
+				continue
+			}
+			limit := time.Second
+			if hasInt(cfg, st.Sig) {
+				limit = 20 * time.Second
+			}
+			if el > at+limit {
+				continue
+			}
+			active = true
+			if !sent[i] {
+				sent[i] = true
+				first(st.Sig)
+			}
+			syscall.Kill(os.Getpid(), syscall.Signal(st.Sig))
+		}
+		if !active || waitOr(stop, next) {
 			return
 		}
 	}
+}
+
+// firstConfigured: the first delivery (G event) of a signal of the configured set.
+func firstConfigured(evs []*Event, cfg []int) *Event {
+	for _, e := range evs {
+		if e.Op == "G" && hasInt(cfg, e.K) {
+			return e
+		}
+	}
+	return nil
+}
+
+func joinInts(set []int) string {
+	parts := make([]string, len(set))
+	for i, n := range set {
+		parts[i] = fmt.Sprint(n)
+	}
+	return strings.Join(parts, ":")
 }
 
 // activeGauge reads the listener's gauge of active connections from the proxy's registry (-1: not found).
